@@ -124,14 +124,23 @@ BigEapVector == LET b == EncEapW(BigRecv) IN
                        Step("eap_reencode", "C12", FALSE, [wire |-> b], [stable |-> TRUE] @@ ExpectEapReencode(b)),
                        Step("eap_reencode", "C20", FALSE, [wire |-> b], [stable |-> TRUE] @@ ExpectEapReencode(b)),
                        Step("eap_reencode", "C14", FALSE, [wire |-> b], [stable |-> TRUE] @@ ExpectEapReencode(b)) >>)
-Count(k) == CASE k = "unknown" -> 9 [] k = "eap" -> Len(EapPool) [] k = "code" -> 256 [] k = "set" -> 7 [] k = "sender" -> Len(EapPool) [] k = "receiver" -> Len(ReceiverSeq)
+\* a received packet in which attribute types repeat (several AT_KDF offers, RFC 5448 3.2; a repeated AT_RAND): whatever the decoder
+\* makes of them, decode / encode settles after one step and repeated encodings agree (C12 C20 C14)
+DupVector ==
+  LET k(n) == AkaAttrPlain([t |-> AT_KDF, v |-> << 0, n >>])
+      w == [code |-> 1, id |-> 44, m |-> "aka", sub |-> 1, rsv |-> 0,
+            attrs |-> << AkaAttrPlain(AV(AT_RAND, 16)), AkaAttrPlain([t |-> AT_RAND, v |-> D(16, 99)]), AkaAttrPlain(AV(AT_AUTN, 16)),
+                         k(1), k(2), k(3), AkaAttrPlain(AV(AT_KDF_INPUT, 7)), AkaAttrPlain(AV(AT_MAC, 16)) >>]
+      b == EncEapW(w) IN
+  Vector("eap_dup", [q \in 1..3 |-> Step("eap_reencode", << "C12", "C20", "C14" >>[q], FALSE, [wire |-> b], [stable |-> TRUE] @@ ExpectEapReencode(b))])
+Count(k) == CASE k = "unknown" -> 10 [] k = "eap" -> Len(EapPool) [] k = "code" -> 256 [] k = "set" -> 7 [] k = "sender" -> Len(EapPool) [] k = "receiver" -> Len(ReceiverSeq)
               [] k = "prf" -> 49 * Len(IdPool)
 SetTypes == << AT_RAND, AT_AUTN, AT_RES, AT_MAC, AT_KDF_INPUT, AT_KDF, AT_CHECKCODE >>
 Init == stage = 0 /\ kind = "" /\ i = 0
 Next == \/ stage = 0 /\ stage' = 1 /\ kind' \in Kinds /\ i' = 0
         \/ stage = 1 /\ stage' = 2 /\ kind' = kind /\ i' \in 1..Count(kind)
         \/ stage = 2 /\ UNCHANGED << stage, kind, i >>
-Vec == CASE kind = "unknown" -> IF i = 9 THEN BigEapVector ELSE UnknownAttrVector(i)
+Vec == CASE kind = "unknown" -> IF i = 9 THEN BigEapVector ELSE IF i = 10 THEN DupVector ELSE UnknownAttrVector(i)
          [] kind = "eap" -> EapVector(EapPool[i])
          [] kind = "code" -> CodeVector(i - 1)
          [] kind = "set" -> SetterVector(SetTypes[i])
